@@ -225,11 +225,17 @@ def check_schedule(case):
     return out
 
 
-def run_plain(e, script):
+def run_plain(e, script, poll=False):
     e.setup(script)
     k = 0
-    while k < 10000 and e.iterate():
-        k += 1
+    if poll:
+        # the loop is driven by polling the completion status, in batches of 2 iterations
+        while k < 10000 and not e.is_complete():
+            e.iterate_n(2)
+            k += 1
+    else:
+        while k < 10000 and e.iterate():
+            k += 1
     e.sample()
     o = e.get_output()
     return (o.t.value.tobytes(), o.data.value.tobytes()), o
@@ -276,9 +282,9 @@ def check_history(case):
         else:
             e = eng.make_engine(this[0])
         for rep in range(3):
-            (t, d), o = run_plain(e, script)
+            (t, d), o = run_plain(e, script, poll=(rep == 1))
             if t != bt or d != bd:
-                out.append(("C08:history:trajectory-differs-from-baseline",
+                out.append(("C08:history:trajectory-differs-from-baseline" + (":status-polling-loop" if rep == 1 else ""),
                             "previous %r (finalized %r, same object %r), repetition %d of %r: trajectory differs from the pristine-process baseline"
                             % (prev, case["finalize_prev"], case["same_object"], rep, this)))
                 break
@@ -297,6 +303,10 @@ def check_seed(case):
         from strengths.simulate import simulate_script
         sc = script_spec(engine, gtype, policy, 5)
         sc.pop("seed")
+        if case.get("real"):
+            # real-valued amounts under the default processing mode: still nothing random for the deterministic engine
+            sc["system"]["state"] = [v + 0.25 * (q + 1) for q, v in enumerate(sc["system"]["state"])]
+            sc["isp"] = "auto"
         random.seed(case["pyseed"])
         script = models.build_script(sc)           # rng_seed=None: drawn from Python's generator
         drawn = script.rng_seed
@@ -315,7 +325,7 @@ def check_seed(case):
         case["_same"] = same
         # t=0 record in 'none' mode does not depend on the seed
         n0 = len(sc["system"]["state"])
-        if o1.data.value[:n0].tobytes() != o3.data.value[:n0].tobytes() and policy != "no_sampling":
+        if o1.data.value[:n0].tobytes() != o3.data.value[:n0].tobytes() and policy != "no_sampling" and not (case.get("real") and engine != "euler"):
             out.append(("C08:seed:t0-record-depends-on-seed", ""))
     except Exception as ex:
         out.append(("C08:seed:unexpected-exception", "%s: %s" % (type(ex).__name__, ex)))
@@ -481,6 +491,8 @@ def gen_cases(tier, seed0):
         for p in POLICIES:
             for r in range(1000 * seed0, 1000 * seed0 + (2 if tier == "quick" else 8)):
                 seeds.append({"sub": "seed", "engine": e, "gtype": g, "policy": p, "pyseed": r})
+                if p in ("on_t_sample", "on_iteration"):
+                    seeds.append({"sub": "seed", "engine": e, "gtype": g, "policy": p, "pyseed": r, "real": True})
     cases += seeds
     given = []
     for (e, g) in KINDS:
